@@ -41,18 +41,18 @@ impl Monitor for C01 {
         let templates = ["@!", "(@)!+1", "(@+0.5)!", "w(@)", "ilog(@,2)", "2^@", "@^3", "sqrt(@)", "exp(@/10)", "ln(@+1)", "gcd(@,360)", "lcm(@,12)", "@!/(@-1)!", "med(@,3,@+1)", "root(3,@)", "@%7", "sin(@)", "1/@"];
         // every (evaluator, construct) pair, with the threads in step and with every thread starting
         // elsewhere in the sweep; several times over in the thorough tier
-        let n_proc = ALL_EV.len() * templates.len() * 2 * ctx.tier.pick(1usize, 6); // two sweeps per pair, the threads starting at different members (three times in four)
+        let n_proc = ALL_EV.len() * templates.len() * 2 * ctx.tier.pick(2usize, 8); // two sweeps per pair, the threads starting at different members (three times in four)
         for s in 0..n_proc {
             let exe = match &exe {
                 Some(e) => e,
                 None => break,
             };
             let mut rng = ctx.rng("concurrent-first-use", ctx.shard * 1000 + s as u64);
-            let combo = (s / 2) % (ALL_EV.len() * templates.len());
+            let combo = (s / 2) % (ALL_EV.len() * templates.len()); // each pair four times in the quick tier: the sweeps are short, what races is the first use
             let ev = ALL_EV[combo % ALL_EV.len()];
             let t = templates[combo / ALL_EV.len()];
             let start = if s % 2 == 0 { *rng.pick(&[18i64, 20, 30][..]) } else { *rng.pick(&[0i64, 15, 100, 150][..]) };
-            let cases: Vec<Case> = (0..24 + rng.below(20) as i64)
+            let cases: Vec<Case> = (0..10 + rng.below(14) as i64)
                 .map(|k| {
                     let k = start + k;
                     let ph = match ev {
@@ -140,6 +140,6 @@ impl Monitor for C01 {
         ]
     }
     fn floors(&self, _t: Tier) -> Vec<(String, u64)> {
-        vec![("by_outcome.ok".into(), 1000), ("by_outcome.err".into(), 1000), ("concurrent_first_use_calls_without_panic".into(), 1000)]
+        vec![("by_outcome.ok".into(), 1000), ("by_outcome.err".into(), 1000), ("concurrent_first_use_calls_without_panic".into(), 10_000)]
     }
 }
